@@ -813,6 +813,18 @@ def check_helpers(ctx, salt, n):
                     if not np.allclose(got, ref, rtol=1e-6, atol=1e-9 * np.abs(ref).max()):
                         _viol(ctx, f"C19/{name}/nearly-deterministic", f"p={pn.tolist()} n={nn}: covariance {got.tolist()} vs exact {ref.tolist()}",
                               {**rep, "p": pn.tolist(), "nn": nn})
+        # closed-form 1/N scaling far beyond enumeration: N = 1e6 … 1e13, exact rational reference, relative tolerance per entry
+        pbig = rand_prob(g, int(g.integers(2, 5)), bits=6)
+        for Nbig in (10 ** 6, 10 ** 9, 10 ** 12, 10 ** 13):
+            pf = [Fr(float(x)) for x in pbig]
+            refb = np.array([[float(((pf[i] if i == j else 0) - pf[i] * pf[j]) / Nbig) for j in range(len(pf))] for i in range(len(pf))])
+            for name, fn in (("matrix_util.calc_covariance_mat", mu.calc_covariance_mat),
+                             ("data_analysis.calc_covariance_matrix_of_prob_dist", da.calc_covariance_matrix_of_prob_dist)):
+                gotb = fn(pbig, Nbig)
+                if not np.allclose(gotb, refb, rtol=1e-9, atol=0.0):
+                    _viol(ctx, f"C19/{name}/large-N", f"p={pbig.tolist()} N={Nbig}: covariance is not (diag p - p p^T)/N entrywise "
+                          f"(max relative deviation {np.max(np.abs(gotb - refb) / np.abs(refb)):.2e})", {**rep, "p": pbig.tolist(), "N": Nbig})
+                    break
         ks = [int(g.integers(1, 5)) for _ in range(int(g.integers(1, 5)))]
         blocks = [g.standard_normal((k, k)) for k in ks]
         if not np.array_equal(mu.calc_direct_sum(blocks), block_diag(blocks)):
@@ -874,6 +886,25 @@ def check_helpers(ctx, salt, n):
                 _viol(ctx, "C19/calc_mse_general_norm/enumeration", f"N={N}, p=(1/2,1/2): mean squared error over all {2 ** N} outcome sequences "
                       f"{got} vs analytical trace {want}", rep)
                 break
+        # Fisher matrix helpers under default and NON-DEFAULT global tolerance (Settings.set_atol): the default eps of
+        # calc_fisher_matrix is 1e-8 whatever the tolerance; probabilities above 1e-8 are used as they are
+        from quara.settings import Settings
+        atol0 = Settings.get_atol()
+        for atol_ in (atol0, 1e-6, 1e-4):
+            try:
+                Settings.set_atol(atol_)
+                msm = int(g.integers(2, 5)); nvs = int(g.integers(1, 4))
+                psm = rand_prob(g, msm); psm = np.clip(psm, 0.05, None); psm[int(g.integers(0, msm))] = 2e-7; psm /= psm.sum()
+                gsm = [g.standard_normal(nvs) for _ in range(msm)]
+                want = sum(np.outer(gx, gx) / px for gx, px in zip(gsm, psm))
+                got = mu.calc_fisher_matrix(psm, gsm)
+                gott = mu.calc_fisher_matrix_total([psm], [gsm], [2.0])
+                if not np.allclose(got, want, rtol=1e-9) or not np.allclose(gott, 2.0 * want, rtol=1e-9):
+                    _viol(ctx, "C19/matrix_util.calc_fisher_matrix/non-default-atol",
+                          f"Settings atol={atol_}, p={psm.tolist()}: Fisher matrix differs from sum_x g g^T / p by {np.abs(got - want).max():.3e} "
+                          f"(relative {np.abs(got - want).max() / np.abs(want).max():.2e})", {**rep, "atol": atol_})
+            finally:
+                Settings.set_atol(atol0)
         # Fisher matrix helpers
         nv = int(g.integers(1, 5))
         pp = rand_prob(g, m)
@@ -935,6 +966,28 @@ def check_helpers(ctx, salt, n):
                 pass
             except Exception as e:  # noqa
                 _viol(ctx, "C19/matrix_util.calc_fisher_matrix_total/weights-length", f"{what}: {type(e).__name__} instead of the documented ValueError", rep)
+    # tomography-level Fisher matrix of a nearly pure state (outcome probability 5e-8) under a loosened global tolerance
+    from quara.settings import Settings
+    atol0 = Settings.get_atol()
+    for flag in (True, False):
+        qtn, truen, testn = build_special(g, "qst", flag, "nearpure:1")
+        varn = np.array(truen.to_var(), dtype=np.float64)
+        An, bn = qtn.calc_matA(), qtn.calc_vecB()
+        pz = (An @ varn + bn)[:2]
+        wantF = sum(np.outer(An[x], An[x]) / pz[x] for x in range(2))
+        for atol_ in (atol0, 1e-6):
+            try:
+                Settings.set_atol(atol_)
+                gotF = qtn.calc_fisher_matrix(0, varn)
+            except Exception as e:  # noqa
+                _viol(ctx, "C19/fisher/nearly-pure/raises", f"atol={atol_}: {type(e).__name__}: {e}", {"kind": "helpers", "salt": salt, "n": n})
+                continue
+            finally:
+                Settings.set_atol(atol0)
+            if pz.min() > 1e-8 and not np.allclose(gotF, wantF, rtol=1e-6):
+                _viol(ctx, "C19/fisher/nearly-pure/non-default-atol" if atol_ != atol0 else "C19/fisher/nearly-pure",
+                      f"Settings atol={atol_}, Z-schedule probabilities {pz.tolist()}: Fisher matrix differs from sum_x grad p grad p^T / p "
+                      f"(relative {np.abs(gotF - wantF).max() / np.abs(wantF).max():.2e})", {"kind": "helpers", "salt": salt, "n": n})
     # non-square input of calc_direct_sum must be rejected (docstring: ValueError)
     try:
         r = mu.calc_direct_sum([np.eye(2), np.array([[1.0], [2.0]])])
